@@ -20,7 +20,7 @@ def spaces(tier):
             (("T2", False, None, None), ["reg", "mix"]),
             (("T2", True, None, None), ["mix", "gappy"]),
         ], pat_n=2, horizon=3.0)
-    return dict(sigma="UDFJ", n=6, n_step=8, sigma_step="UDF", tfcs=[
+    return dict(sigma="UDFJ", n=5, n_step=7, sigma_step="UDF", tfcs=[
         ((None, False, None, None), ["step"]),
         (("T2", False, None, None), ["reg", "mix"]),
         (("T2", True, None, None), ["mix", "gappy"]),
@@ -29,7 +29,7 @@ def spaces(tier):
         (("D1", False, None, None), ["reg"]),
         ((None, False, None, "HA"), ["step"]),
         (("T2", False, None, "HA"), ["mix"]),
-    ], pat_n=3, horizon=6.0)
+    ], deep=[((None, False, None, None), "step", 6), (("T2", True, None, None), "mix", 6)], pat_n=3, horizon=6.0)
 
 
 def schedules(n, base_preload=0):
@@ -53,8 +53,10 @@ def closed(snapshot, tfc):
 
 
 def explore(item):
-    prop, tier, label, tfc, gkind, first_letters = item
+    prop, tier, label, tfc, gkind, first_letters = item[:6]
     sp = spaces(tier)
+    if len(item) > 6:
+        sp = dict(sp, n=item[6])
     cfg = BY_LABEL[label]
     rep = Report()
     is_pat = cfg in PATTERNS
@@ -288,6 +290,10 @@ def main(prop, tier):
                 else:
                     for fl in sp["sigma"]:
                         items.append((prop, tier, cfg["label"], tfc, g, fl))
+    for tfc, g, n in sp.get("deep", []):
+        for cfg in ALL:
+            for fl in sp["sigma"]:
+                items.append((prop, tier, cfg["label"], tfc, g, fl, n))
     reps = pmap(explore, items)
     step_its = []
     for cfg in ALL:
@@ -302,7 +308,7 @@ def main(prop, tier):
             "non-trivial = distinct (config, stream, schedule) with >=2 appends whose batch result has a non-None reading "
             "and whose oracle comparison was evaluated")
     bounds = {"sigma": sp["sigma"], "n": sp["n"], "step_sigma": sp["sigma_step"], "step_n": sp["n_step"],
-              "tfcs": [tfc_label(t) + ":" + ",".join(g) for t, g in sp["tfcs"]], "configs": len(ALL) + len(PATTERNS),
+              "tfcs": [tfc_label(t) + ":" + ",".join(g) for t, g in sp["tfcs"]], "deeper": [(tfc_label(t), g, n) for t, g, n in sp.get("deep", [])], "configs": len(ALL) + len(PATTERNS),
               "pattern_suffix_n": sp["pat_n"], "variant": A.variant()}
     return finish(prop, tier, rep, t0, rule=rule, bounds=bounds, replay_confirm=replay,
                   assumptions=["streams over the stated candle/gaps alphabets; periods 2-6",
